@@ -1,0 +1,131 @@
+//go:build verif
+
+// Read-only accessors for the /verif harness (dvsim: C18, C19). Add-only: nothing here is
+// compiled without the `verif` build tag, and nothing here changes any table.
+
+package table
+
+import (
+	"time"
+
+	enc "github.com/named-data/ndnd/std/encoding"
+)
+
+// VerifRibEntry is a copy of one RIB entry.
+type VerifRibEntry struct {
+	// destination router
+	Name enc.Name
+	// neighbour name (URI) -> cost through that neighbour (values at infinity included)
+	Costs map[string]uint64
+	// best and second-best next hop as stored in the entry (nil if none)
+	NextHop1 enc.Name
+	NextHop2 enc.Name
+	// best and second-best cost as stored in the entry
+	Lowest1 uint64
+	Lowest2 uint64
+}
+
+// VerifEntries returns a copy of every RIB entry (including any entry at infinity).
+func (r *Rib) VerifEntries() []VerifRibEntry {
+	out := make([]VerifRibEntry, 0, len(r.entries))
+	for _, e := range r.entries {
+		v := VerifRibEntry{
+			Name:    e.name.Clone(),
+			Costs:   make(map[string]uint64, len(e.costs)),
+			Lowest1: e.lowest1,
+			Lowest2: e.lowest2,
+		}
+		for hop, cost := range e.costs {
+			v.Costs[r.neighbors[hop].String()] = cost
+		}
+		if n, ok := r.neighbors[e.nextHop1]; ok {
+			v.NextHop1 = n.Clone()
+		}
+		if n, ok := r.neighbors[e.nextHop2]; ok {
+			v.NextHop2 = n.Clone()
+		}
+		out = append(out, v)
+	}
+	return out
+}
+
+// VerifNeighbor is a copy of one neighbour state.
+type VerifNeighbor struct {
+	Name      enc.Name
+	FaceId    uint64
+	Active    bool
+	AdvertSeq uint64
+	HasAdvert bool
+	LastSeen  time.Time
+}
+
+// VerifNeighbors returns a copy of the neighbour table.
+func (nt *NeighborTable) VerifNeighbors() []VerifNeighbor {
+	out := make([]VerifNeighbor, 0, len(nt.neighbors))
+	for _, ns := range nt.neighbors {
+		out = append(out, VerifNeighbor{
+			Name:      ns.Name.Clone(),
+			FaceId:    ns.faceId,
+			Active:    ns.isFaceActive,
+			AdvertSeq: ns.AdvertSeq,
+			HasAdvert: ns.Advert != nil,
+			LastSeen:  ns.lastSeen,
+		})
+	}
+	return out
+}
+
+// VerifPrefixRouter is a copy of the prefix-table state kept for one router.
+type VerifPrefixRouter struct {
+	Name     enc.Name
+	Known    uint64
+	Latest   uint64
+	Fetching bool
+	Prefixes []enc.Name
+}
+
+// VerifRouters returns a copy of the prefix table (every router it has an entry for).
+func (pt *PrefixTable) VerifRouters() []VerifPrefixRouter {
+	out := make([]VerifPrefixRouter, 0, len(pt.routers))
+	for _, r := range pt.routers {
+		v := VerifPrefixRouter{
+			Name:     r.Name.Clone(),
+			Known:    r.Known,
+			Latest:   r.Latest,
+			Fetching: r.Fetching,
+			Prefixes: make([]enc.Name, 0, len(r.Prefixes)),
+		}
+		for _, p := range r.Prefixes {
+			v.Prefixes = append(v.Prefixes, p.Name.Clone())
+		}
+		out = append(out, v)
+	}
+	return out
+}
+
+// VerifSnapshotAt returns the sequence number of the latest published snapshot.
+func (pt *PrefixTable) VerifSnapshotAt() uint64 {
+	return pt.snapshotAt
+}
+
+// VerifFibRoute is one (prefix, face, cost) the Fib believes it has registered.
+type VerifFibRoute struct {
+	Name   enc.Name
+	FaceId uint64
+	Cost   uint64
+}
+
+// VerifRoutes returns a copy of the installed-routes map of the Fib.
+func (fib *Fib) VerifRoutes() []VerifFibRoute {
+	out := make([]VerifFibRoute, 0, len(fib.prefixes))
+	for nameH, entries := range fib.prefixes {
+		for _, e := range entries {
+			out = append(out, VerifFibRoute{
+				Name:   fib.names[nameH].Clone(),
+				FaceId: e.FaceId,
+				Cost:   e.Cost,
+			})
+		}
+	}
+	return out
+}
